@@ -282,7 +282,8 @@ func FormatBytes(dst []byte, src []byte, opts *Options) []byte {
 						dst = append(dst, line[:i+2]...)
 						restOfLine := line[i+2:]
 						restOfSrc := src[lineLength-len(restOfLine):]
-						dst, line, remaining = handleRaw(dst, restOfSrc, starSlash)
+						dst, src, line, remaining = handleRaw(dst, restOfSrc, starSlash)
+						lineLength = len(line)
 						last = lastNonWhiteSpace(line)
 						continue loop
 					}
@@ -299,7 +300,8 @@ func FormatBytes(dst []byte, src []byte, opts *Options) []byte {
 					dst = append(dst, line[:i+1]...)
 					restOfLine := line[i+1:]
 					restOfSrc := src[lineLength-len(restOfLine):]
-					dst, line, remaining = handleRaw(dst, restOfSrc, backTick)
+					dst, src, line, remaining = handleRaw(dst, restOfSrc, backTick)
+					lineLength = len(line)
 					last = lastNonWhiteSpace(line)
 					continue loop
 				}
@@ -400,8 +402,11 @@ func skipCooked(s []byte, quote byte) (suffix []byte) {
 }
 
 // handleRaw copies a raw string from restOfSrc to dst, re-calculating the
-// (line, remaining) pair afterwards.
-func handleRaw(dst []byte, restOfSrc []byte, endQuote []byte) (retDst []byte, line []byte, remaining []byte) {
+// (line, remaining) pair afterwards. It also returns newSrc: what is left of
+// restOfSrc after the raw string. The raw string may have spanned several
+// lines, so the caller's offsets into its old src no longer apply and it must
+// continue with newSrc (of which line is a prefix) instead.
+func handleRaw(dst []byte, restOfSrc []byte, endQuote []byte) (retDst []byte, newSrc []byte, line []byte, remaining []byte) {
 	end := bytes.Index(restOfSrc, endQuote)
 	if end < 0 {
 		end = len(restOfSrc)
@@ -409,9 +414,10 @@ func handleRaw(dst []byte, restOfSrc []byte, endQuote []byte) (retDst []byte, li
 		end += len(endQuote)
 	}
 	dst = append(dst, restOfSrc[:end]...)
-	line, remaining = restOfSrc[end:], nil
+	newSrc = restOfSrc[end:]
+	line, remaining = newSrc, nil
 	if i := bytes.IndexByte(line, '\n'); i >= 0 {
 		line, remaining = line[:i], line[i+1:]
 	}
-	return dst, line, remaining
+	return dst, newSrc, line, remaining
 }
